@@ -34,6 +34,11 @@ class Tokenizer:
     ).sub
     # escaped line breaks; an escaped backslash is matched first and kept (group 1)
     cleanstring = re.compile(r'(\\\\)|\\(?:\r\n|[\n\r\f])').sub
+    # strings are decoded in one pass from left to right: an escaped line
+    # break is dropped where it stands and never joins what is around it
+    stringsub = re.compile(
+        r'\\\\|\\(?:\r\n|[\n\r\f])|\\[0-9a-fA-F]{1,6}(?:\r\n|[\t\r\n\f\x20])?'
+    ).sub
 
     def __init__(self, macros=None, productions=None, doComments=True):
         """
@@ -124,6 +129,12 @@ class Tokenizer:
                 return chr(num)
             else:
                 return m.group(0)
+
+        def _replstring(m):
+            "used by stringsub"
+            if m.group(0)[1] in '\r\n\f':
+                return ''
+            return _repl(m)
 
         def _normalize(value):
             "normalize and do unicodesub"
@@ -235,12 +246,10 @@ class Tokenizer:
                             # may contain unicode escape, replace with normal
                             # char but do not _normalize (?)
                             if name in ('STRING', 'INVALID'):  # 'URI'?
-                                # remove \ followed by nl (so escaped) from string,
-                                # before escapes are decoded
-                                value = self.cleanstring(r'\1', found)
+                                # drops \ followed by nl (so escaped) too
+                                value = self.stringsub(_replstring, found)
                             else:
-                                value = found
-                            value = self.unicodesub(_repl, value)
+                                value = self.unicodesub(_repl, found)
 
                         else:
                             if 'ATKEYWORD' == name:
